@@ -30,6 +30,12 @@ type Stats struct {
 	Errors   int
 	Seconds  float64
 	Restarts int
+	// cross-check of verdicts with a second, independent solver (z3 5.1)
+	XQueries   int
+	XAgree     int
+	XDisagree  int
+	XUnknown   int
+	XSeconds   float64
 }
 
 func (s *Stats) Add(o Stats) {
@@ -40,6 +46,11 @@ func (s *Stats) Add(o Stats) {
 	s.Errors += o.Errors
 	s.Seconds += o.Seconds
 	s.Restarts += o.Restarts
+	s.XQueries += o.XQueries
+	s.XAgree += o.XAgree
+	s.XDisagree += o.XDisagree
+	s.XUnknown += o.XUnknown
+	s.XSeconds += o.XSeconds
 }
 
 // Solver is one persistent SMT-LIB2 process. All definitions and assertions
@@ -50,6 +61,8 @@ type Solver struct {
 	TimeoutMS int
 	Stats     Stats
 	Log       io.Writer // optional transcript
+
+	X *Solver // optional second solver: verdicts handed to CrossCheck are re-decided by it from a standalone script
 
 	cmd     *exec.Cmd
 	in      io.WriteCloser
@@ -94,6 +107,9 @@ func (s *Solver) send(line string) {
 }
 
 func (s *Solver) Close() {
+	if s.X != nil {
+		s.X.Close()
+	}
 	if s.cmd != nil {
 		s.in.Close()
 		done := make(chan struct{})
@@ -426,4 +442,43 @@ func Script(ts []*Term) string {
 	}
 	sb.WriteString("(check-sat)\n")
 	return sb.String()
+}
+
+// CheckScript decides a standalone problem (declarations, assertions, no check-sat) from a reset state.
+func (s *Solver) CheckScript(script string) Result {
+	if s.cmd == nil {
+		if err := s.start(); err != nil {
+			return Unknown
+		}
+	}
+	s.send("(reset)")
+	s.send("(set-option :print-success false)")
+	if strings.Contains(s.Cmd[0], "z3") {
+		s.send(fmt.Sprintf("(set-option :timeout %d)", s.TimeoutMS))
+	}
+	s.send(script)
+	return s.readResult()
+}
+
+// CrossCheck re-decides "ts is satisfiable" with the second solver and compares with the primary verdict.
+// It returns false when the two solvers contradict each other (sat versus unsat); an unknown of the second
+// solver is counted and not treated as a contradiction.
+func (s *Solver) CrossCheck(primary Result, ts []*Term) bool {
+	if s.X == nil || primary == Unknown {
+		return true
+	}
+	t0 := time.Now()
+	r := s.X.CheckScript(Script(ts))
+	s.Stats.XQueries++
+	s.Stats.XSeconds += time.Since(t0).Seconds()
+	switch {
+	case r == Unknown:
+		s.Stats.XUnknown++
+	case r == primary:
+		s.Stats.XAgree++
+	default:
+		s.Stats.XDisagree++
+		return false
+	}
+	return true
 }
